@@ -23,6 +23,7 @@ pub fn read_games(text: &str) -> Vec<Game> {
     let mut brace = false; // inside { }
     let mut paren = 0usize; // variation depth
     let mut have_any = false;
+    let mut junk = 0usize;
 
     let mut flush = |cur: &mut Game, games: &mut Vec<Game>, have_any: &mut bool| {
         if *have_any {
@@ -81,6 +82,12 @@ pub fn read_games(text: &str) -> Vec<Game> {
             }
         }
         for tok in text.split_whitespace() {
+            // text that is not preceded by a tag-pair section is not a game (the corpus has
+            // free-text separator lines between tournaments)
+            if !have_any && !in_movetext {
+                junk += 1;
+                continue;
+            }
             if !in_movetext {
                 in_movetext = true;
                 if !have_any {
@@ -113,5 +120,6 @@ pub fn read_games(text: &str) -> Vec<Game> {
         }
     }
     flush(&mut cur, &mut games, &mut have_any);
+    let _ = junk;
     games
 }
